@@ -128,6 +128,24 @@ def verify_contract(c, src_index, unroll=0, timeout_ms=20000, registry=REGISTRY,
                 if kwn is not None and isinstance(pk.get(kwn.arg), dict):
                     extra = pk.pop(kwn.arg)              # the contract's value for **kwargs is spread into keyword arguments
                     pk.update(extra)
+                # parameters of the real function that the contract does not supply are universally quantified too:
+                # a boolean default is explored with both truth values; any other default is kept and the proof is
+                # marked partial for that parameter (a parameter added to the code later cannot slip under a contract)
+                a_ = f.node.args
+                plist = [x.arg for x in a_.posonlyargs + a_.args]
+                dflt = dict(zip(plist[len(plist) - len(f.defaults):], f.defaults)) if f.defaults else {}
+                dflt.update({k.arg: f.kwdefaults[k.arg] for k in a_.kwonlyargs if k.arg in f.kwdefaults})
+                supplied = set(pk) | set(plist[:len(pos)])
+                for nm in plist + [k.arg for k in a_.kwonlyargs]:
+                    if nm in supplied or nm not in dflt or nm in getattr(c, 'default_only', ()):
+                        continue
+                    if isinstance(dflt[nm], bool):
+                        which = run.choose([(f'{nm}={dflt[nm]}', True), (f'{nm}={not dflt[nm]}', True)], f'uncovered parameter {nm}')
+                        pk[nm] = dflt[nm] if which == f'{nm}={dflt[nm]}' else (not dflt[nm])
+                    else:
+                        note = f'PARTIAL parameter {nm} is not covered by the contract: explored only with its default {dflt[nm]!r}'
+                        if note not in run.notes:
+                            run.notes.append(note)
                 res = it.invoke(f, pos, pk, None)
                 outcome = ('return', res)
             except PyExc as e:
